@@ -47,9 +47,10 @@ OutVal == <<"o">>
 
 (* ----------------------------------------------------------------------- *)
 (* The file system the replay sees (adversarial but legal): the bundle's   *)
-(* copy of the input directory contains the input itself and the other     *)
-(* input `aa`; the current directory contains files `a` and `aa`.          *)
-InDirFiles(text) == {<<"a", "a">>, text}
+(* copy of the input directory contains the input itself and the two other *)
+(* inputs `zz` and `aa` (given in that order after it); the current        *)
+(* directory contains files `a` and `aa`.                                  *)
+InDirFiles(text) == {<<"a", "a">>, <<"z", "z">>, text}
 CwdFiles == {<<"a">>, <<"a", "a">>}
 
 Broken(why) == [ok |-> FALSE, why |-> why, words |-> <<>>]
@@ -69,22 +70,26 @@ HasGlob(w) == \E i \in 1..Len(w) : ~w[i][2] /\ w[i][1] \in {"star", "qm"}
 LastSlash(w) == LET S == {i \in 1..Len(w) : w[i][1] = "slash"} IN
                 IF S = {} THEN 0 ELSE CHOOSE i \in S : \A j \in S : j <= i
 
-(* Pathname expansion of one finished word.  `text` only tells which files exist. *)
-GlobOk(w, text) ==
-    IF ~HasGlob(w) THEN TRUE
-    ELSE LET k == LastSlash(w)
-             dir == Unq(SubSeq(w, 1, k))
-             pat == SubSeq(w, k + 1, Len(w))
-             files == IF k = 0 THEN CwdFiles
-                      ELSE IF dir = DVal \o <<"slash", "a", "slash">> THEN InDirFiles(text)
-                      ELSE {}
-             m == {n \in files : GMatch(pat, n)}
-         IN  HasGlob(SubSeq(w, 1, k)) = FALSE /\ (m = {} \/ m = {Unq(pat)})
+(* Pathname expansion of one finished word: no match -> the word stays; one match -> the matching
+   file name (which may or may not be the original text); several -> several words.
+   `text` only tells which files exist. *)
+GlobMatches(w, text) ==
+    LET k == LastSlash(w)
+        dir == Unq(SubSeq(w, 1, k))
+        pat == SubSeq(w, k + 1, Len(w))
+        files == IF k = 0 THEN CwdFiles
+                 ELSE IF dir = DVal \o <<"slash", "a", "slash">> THEN InDirFiles(text)
+                 ELSE {}
+    IN  {dir \o n : n \in {n \in files : GMatch(pat, n)}}
 
 EndWord(cur, has, acc, text) ==
     IF ~acc.ok \/ ~has THEN acc
-    ELSE IF GlobOk(cur, text) THEN [acc EXCEPT !.words = Append(@, Unq(cur))]
-    ELSE Broken("glob")
+    ELSE IF ~HasGlob(cur) THEN [acc EXCEPT !.words = Append(@, Unq(cur))]
+    ELSE IF HasGlob(SubSeq(cur, 1, LastSlash(cur))) THEN Broken("glob")
+    ELSE LET m == GlobMatches(cur, text) IN
+         IF m = {} THEN [acc EXCEPT !.words = Append(@, Unq(cur))]
+         ELSE IF Cardinality(m) = 1 THEN [acc EXCEPT !.words = Append(@, CHOOSE x \in m : TRUE)]
+         ELSE Broken("glob")
 
 Lit(s, q) == [i \in 1..Len(s) |-> <<s[i], q>>]
 
@@ -107,7 +112,7 @@ WordEnds(c) == c \in {"end", "sp", "tab", "nl", "slash"} \/ Oper(c)
 RECURSIVE LexU(_, _, _, _, _, _, _), LexS(_, _, _, _, _), LexD(_, _, _, _, _)
 
 (* s script, i position, cur current word as <<class, quoted>> pairs, has: a word will be produced,
-   st: the word has lexically started, acc: result so far, text: see GlobOk *)
+   st: the word has lexically started, acc: result so far, text: see GlobMatches *)
 LexU(s, i, cur, has, st, acc, text) ==
     IF ~acc.ok THEN acc
     ELSE IF i > Len(s) THEN EndWord(cur, has, acc, text)
@@ -246,12 +251,17 @@ Replayed(kind, t) ==
 (* THE PROPERTY (per argument): the replay sees the original arguments *)
 RoundTrip(kind, t) == LET r == Replayed(kind, t) IN r.ok /\ r.words = Expected(kind, t)
 
-(* which class to blame: the last character of the shortest prefix that does not round-trip *)
+(* which class to blame: in the shortest prefix p that does not round-trip, the first character whose
+   replacement by a plain character repairs p (else p's last character) *)
 Blame(kind, t) ==
     IF RoundTrip(kind, t) THEN "none"
     ELSE LET F == {i \in 1..Len(t) : ~RoundTrip(kind, SubSeq(t, 1, i))}
-             i == CHOOSE i \in F : \A j \in F : i <= j
-         IN t[i]
+             n == CHOOSE i \in F : \A j \in F : i <= j
+             p == SubSeq(t, 1, n)
+             C == {i \in 1..n : RoundTrip(kind, [p EXCEPT ![i] = "a"])}
+             S == {i \in C : p[i] \notin {"a", "D", "eq", "dash", "at"}}     \* prefer a shell-special class
+             Min(X) == CHOOSE i \in X : \A j \in X : i <= j
+         IN IF S # {} THEN p[Min(S)] ELSE IF C # {} THEN p[Min(C)] ELSE p[n]
 
 (* ----------------------------------------------------------------------- *)
 (* A quoting that works: single-quote every argument (' -> '\''), "$D"/ in *)
